@@ -47,7 +47,7 @@ def steerOk (k : Kind) (st : String) : Bool :=
   match k with
   | .bp | .bbp => st == "none" || st == "sc" || st == "sn" || st == "sl"
   | .wq => st == "none"
-  | .mb => st == "none" || st == "wc" || st == "wn" || st == "dd" || st == "dn"
+  | .mb => st == "none" || st == "wc" || st == "wn" || st == "dd" || st == "dn" || st == "ws"
 
 def c37Step (_ : Unit) (op impl : String) : Unit × String × String :=
   match fields op with
